@@ -1,9 +1,19 @@
 from __future__ import annotations
 from abc import ABC, abstractmethod
-from math import fabs
+from math import isclose
 
 
-COMPARISON_TOLERANCE = 1e-12
+COMPARISON_TOLERANCE = 1e-14
+SUBNORMAL_TOLERANCE = 1e-300
+
+
+def _is_close(value_1: float | int, value_2: float | int) -> bool:
+    return isclose(
+        value_1,
+        value_2,
+        rel_tol=COMPARISON_TOLERANCE,
+        abs_tol=SUBNORMAL_TOLERANCE
+    )
 
 
 class UnitBase(ABC):
@@ -119,9 +129,7 @@ class UnitBase(ABC):
         if self.unit == other.unit:
             return self.value == other.value
         else:
-            return fabs(
-                self.value - other.to(self.unit).value
-            ) < COMPARISON_TOLERANCE
+            return _is_close(self.value, other.to(self.unit).value)
 
     def __ne__(self, other: UnitBase) -> None:
         if not isinstance(other, self.__class__) and \
@@ -134,9 +142,7 @@ class UnitBase(ABC):
         if self.unit == other.unit:
             return self.value != other.value
         else:
-            return fabs(
-                self.value - other.to(self.unit).value
-            ) > COMPARISON_TOLERANCE
+            return not _is_close(self.value, other.to(self.unit).value)
 
     def __gt__(self, other: UnitBase) -> None:
         if not isinstance(other, self.__class__) and \
@@ -149,9 +155,9 @@ class UnitBase(ABC):
         if self.unit == other.unit:
             return self.value > other.value
         else:
-            return self.value - other.to(
-                self.unit
-            ).value > COMPARISON_TOLERANCE
+            other_value = other.to(self.unit).value
+            return self.value > other_value and \
+                not _is_close(self.value, other_value)
 
     def __ge__(self, other: UnitBase) -> None:
         if not isinstance(other, self.__class__) and \
@@ -164,9 +170,9 @@ class UnitBase(ABC):
         if self.unit == other.unit:
             return self.value >= other.value
         else:
-            return self.value - other.to(
-                self.unit
-            ).value >= -COMPARISON_TOLERANCE
+            other_value = other.to(self.unit).value
+            return self.value >= other_value or \
+                _is_close(self.value, other_value)
 
     def __lt__(self, other: UnitBase) -> None:
         if not isinstance(other, self.__class__) and \
@@ -179,9 +185,9 @@ class UnitBase(ABC):
         if self.unit == other.unit:
             return self.value < other.value
         else:
-            return self.value - other.to(
-                self.unit
-            ).value < -COMPARISON_TOLERANCE
+            other_value = other.to(self.unit).value
+            return self.value < other_value and \
+                not _is_close(self.value, other_value)
 
     def __le__(self, other: UnitBase) -> None:
         if not isinstance(other, self.__class__) and \
@@ -194,9 +200,9 @@ class UnitBase(ABC):
         if self.unit == other.unit:
             return self.value <= other.value
         else:
-            return self.value - other.to(
-                self.unit
-            ).value <= COMPARISON_TOLERANCE
+            other_value = other.to(self.unit).value
+            return self.value <= other_value or \
+                _is_close(self.value, other_value)
 
     @property
     @abstractmethod
